@@ -616,6 +616,39 @@ def for_target_program(rnd):
     return '\n'.join([lines[0]] + pre + lines[1:] + [tail]) + '\n'
 
 
+def jump_pair_programs():
+    """pure programs with two different kinds of jump in one loop body (break + return, continue + return, ...): each lowering
+    pass attaches its own flag and extra loop test to the loop and the flags become loop state; several key offsets so that the
+    pure conditions take different paths"""
+    out = []
+    jumps = {'break': 'break', 'continue': 'continue', 'return': 'return T({r}, x)'}
+    for loop in ('for i1 in R({l}):', 'while n1 < 3 and P({l}, n1):'):
+        for j1 in sorted(jumps):
+            for j2 in sorted(jumps):
+                if j1 == j2:
+                    continue
+                for off in range(8):
+                    k = [100 * off + 10]
+
+                    def K():
+                        k[0] += 1
+                        return k[0]
+                    L = ['def f(a, b, c):', '    x = T(%d, a)' % K(), '    n1 = 0', '    ' + loop.format(l=4 * K() + 3)]
+                    body = []
+                    if loop.startswith('while'):
+                        body.append('n1 += 1')
+                    it = 'i1' if loop.startswith('for') else 'n1'
+                    # off 0-3: pure pseudo-random conditions; off 4-7: the first jump never / the second always taken (and
+                    # the other way round), so that the loop certainly goes on after a jump site was passed
+                    c1 = {4: '%s > 5' % it, 5: '%s > 5' % it, 6: 'x >= 0', 7: '%s >= 1' % it}.get(off, 'not P(%d, %s, x)' % (K(), it))
+                    c2 = {4: 'x >= 0', 5: '%s >= 1' % it, 6: '%s > 5' % it, 7: 'x >= 0'}.get(off, 'P(%d, x)' % K())
+                    body += ['if %s:' % c1, '    ' + jumps[j1].format(r=K()), 'x = T(%d, x, %s)' % (K(), it),
+                             'if %s:' % c2, '    ' + jumps[j2].format(r=K()), 'x = T(%d, x)' % K()]
+                    L += ['        ' + l for l in body] + ['    return T(%d, x, n1)' % K()]
+                    out.append('\n'.join(L) + '\n')
+    return out
+
+
 def closure_programs(rnd):
     """local functions closing over a variable that a later control statement assigns, reached directly, through a
     sibling closure, a two-hop chain or an alias; the variable is read after the statement only through them"""
@@ -786,7 +819,7 @@ def check(run):
     from malt.impl import api
     failures = []
     nprog = 150 if quick else 2000
-    srcs = closure_programs(rnd) + [gen_pure(rnd, mutation=(i % 3 == 0), global_=(i % 4 == 1)) for i in range(nprog)] + \
+    srcs = closure_programs(rnd) + jump_pair_programs() + [gen_pure(rnd, mutation=(i % 3 == 0), global_=(i % 4 == 1)) for i in range(nprog)] + \
         [for_target_program(rnd) for i in range(nprog // 4)]
     cdir = os.path.join(vlib.ROOT, 'corpus', 'C02')
     csrcs = []
